@@ -26,10 +26,13 @@ Record obs := {
   o_buf_err : string
 }.
 
+(* the call of a case: one of the entry points, or Exec with writers that may fail *)
+Inductive xentry := XE (f : entry) | XExec (so se : xwriter).
+
 Record case := {
   c_penv : envlist;                    (* os.Environ() at call time, split at the first '=' *)
   c_envm : envlist;                    (* the env map (entries in some order) *)
-  c_fn : entry;
+  c_fn : xentry;
   c_cmd : string;
   c_args : list string;
   c_startable : list string;           (* command strings the OS can start: the helper child *)
@@ -46,9 +49,12 @@ Definition world (c : case) (argv envp : list string) : child_result :=
 Definition is_output_fn (f : entry) : bool := match f with FOutput | FOutputWith => true | _ => false end.
 
 Definition model_obs (c : case) : obs :=
-  let x := call_entry (c_penv c) (world c) (c_fn c) (c_envm c) (c_cmd c) (c_args c) in
+  let x := match c_fn c with
+           | XE f => call_entry (c_penv c) (world c) f (c_envm c) (c_cmd c) (c_args c)
+           | XExec so se => exec_x (c_penv c) (world c) (c_envm c) so se (c_cmd c) (c_args c)
+           end in
   let started := match k_child x with NotStarted => false | _ => true end in
-  {| o_ran := match c_fn c with FExec _ _ => Some (k_ran x) | _ => None end;
+  {| o_ran := match c_fn c with XE (FExec _ _) | XExec _ _ => Some (k_ran x) | _ => None end;
      o_err := k_err x;
      o_mg := mg_ExitStatus (k_err x);
      o_sh := sh_ExitStatus (k_err x);
@@ -58,7 +64,7 @@ Definition model_obs (c : case) : obs :=
      o_stdin_ok := if started then match k_stdin x with OsStdin => true | NoStdin => false end else true;
      o_os_stdout := k_os_stdout x;
      o_os_stderr := k_os_stderr x;
-     o_buf_out := if is_output_fn (c_fn c) then EmptyString else k_buf_out x;
+     o_buf_out := if match c_fn c with XE f => is_output_fn f | _ => false end then EmptyString else k_buf_out x;
      o_buf_err := k_buf_err x |}.
 
 Definition err_eqb (a b : err) : bool :=
